@@ -34,7 +34,8 @@ type violation struct {
 type lostCase struct {
 	Shard   int    `json:"shard"`
 	Ordinal uint64 `json:"ordinal"`
-	Payload string `json:"case"`
+	Payload string `json:"-"`
+	Text    string `json:"case"`
 	Reason  string `json:"reason"`
 }
 
@@ -142,7 +143,7 @@ func readState(path string) (uint64, string) {
 	if n < 0 || 12+n > len(b) {
 		n = 0
 	}
-	return ord, strings.ReplaceAll(string(b[12:12+n]), "\x1f", " | ")
+	return ord, string(b[12 : 12+n])
 }
 
 // superviseShard runs one shard to completion, restarting the worker after the
@@ -152,7 +153,7 @@ func (r *runner) superviseShard(i int) *shardResult {
 	stateFile := filepath.Join(buildDir, fmt.Sprintf("state-%d-%d", os.Getpid(), i))
 	defer os.Remove(stateFile)
 	var skip uint64
-	const maxRestarts = 40
+	const maxRestarts = 8
 	for attempt := 0; ; attempt++ {
 		os.Remove(stateFile)
 		args := []string{"-check", r.def.Check, "-tier", r.tier, "-shard", strconv.Itoa(i), "-n", strconv.Itoa(r.nshards),
@@ -230,6 +231,9 @@ func (r *runner) superviseShard(i int) *shardResult {
 		ord, payload := readState(stateFile)
 		reason := classifyDeath(werr, errb.String())
 		res.lost = append(res.lost, lostCase{Shard: i, Ordinal: ord, Payload: payload, Reason: reason})
+		if l := &res.lost[len(res.lost)-1]; true {
+			l.Text = strings.ReplaceAll(payload, "\x1f", " | ")
+		}
 		// counters of a dead worker are lost; account for that
 		res.counters["worker_deaths"]++
 		if ord == 0 || ord <= skip || attempt >= maxRestarts {
@@ -270,34 +274,41 @@ func firstLine(s string) string {
 // confirmReplay re-runs one candidate alone in a fresh worker, three times; it is
 // believed only if it is reported every time with the same observation.
 func (r *runner) confirmReplay(v *violation, file string) (bool, string) {
-	var first string
+	got := make([]string, 3)
+	errs := make([]error, 3)
+	var wg sync.WaitGroup
 	for k := 0; k < 3; k++ {
-		cmd := exec.Command(r.worker, "-replay", file, "-props", v.Prop, "-hang", "30")
-		cmd.Env = append(os.Environ(), "GOMAXPROCS=2", "GOTRACEBACK=single")
-		var out, errb bytes.Buffer
-		cmd.Stdout, cmd.Stderr = &out, &limitedWriter{w: &errb, n: 1 << 14}
-		err := cmd.Run()
-		got := ""
-		for _, line := range strings.Split(out.String(), "\n") {
-			var w violation
-			if strings.HasPrefix(line, "{") && json.Unmarshal([]byte(line), &w) == nil && w.T == "viol" && w.Prop == v.Prop {
-				got = w.Obs
-				break
+		wg.Add(1)
+		go func(k int) {
+			defer wg.Done()
+			cmd := exec.Command(r.worker, "-replay", file, "-props", v.Prop, "-hang", "20")
+			cmd.Env = append(os.Environ(), "GOMAXPROCS=2", "GOTRACEBACK=single")
+			var out, errb bytes.Buffer
+			cmd.Stdout, cmd.Stderr = &out, &limitedWriter{w: &errb, n: 1 << 14}
+			err := cmd.Run()
+			errs[k] = err
+			for _, line := range strings.Split(out.String(), "\n") {
+				var w violation
+				if strings.HasPrefix(line, "{") && json.Unmarshal([]byte(line), &w) == nil && w.T == "viol" && w.Prop == v.Prop {
+					got[k] = w.Obs
+					break
+				}
 			}
+			if got[k] == "" && err != nil && v.crash {
+				got[k] = classifyDeath(err, errb.String())
+			}
+		}(k)
+	}
+	wg.Wait()
+	for k := 0; k < 3; k++ {
+		if got[k] == "" {
+			return false, fmt.Sprintf("replay %d did not reproduce (%v)", k, errs[k])
 		}
-		if got == "" && err != nil && v.crash {
-			got = classifyDeath(err, errb.String())
-		}
-		if got == "" {
-			return false, fmt.Sprintf("replay %d did not reproduce (%v)", k, err)
-		}
-		if k == 0 {
-			first = got
-		} else if got != first {
-			return false, "replays disagree: " + first + " / " + got
+		if got[k] != got[0] {
+			return false, "replays disagree: " + got[0] + " / " + got[k]
 		}
 	}
-	return true, first
+	return true, got[0]
 }
 
 func writeReplay(v *violation) string {
@@ -418,13 +429,14 @@ func cmdRun(prop, tier string) int {
 			if l.Ordinal == 0 {
 				continue
 			}
-			key := "crash " + l.Payload
+			parts := strings.Split(l.Payload, "\x1f")
+			key := "crash " + strings.Join(parts, " | ")
 			if seen[key] {
 				continue
 			}
 			seen[key] = true
 			cands = append(cands, &violation{Prop: prop, Key: key, crash: true, shard: l.Shard, ordinal: l.Ordinal,
-				Case: map[string]interface{}{"check": def.Check, "crash_case": l.Payload, "tier": tier, "shard": l.Shard, "n": r.nshards, "ordinal": l.Ordinal, "params": r.params},
+				Case: map[string]interface{}{"check": def.Check, "crash_case": strings.Join(parts, " | "), "crash_parts": parts, "tier": tier},
 				Exp:  "terminates promptly with a documented outcome", Obs: l.Reason})
 		}
 	}
@@ -530,13 +542,14 @@ func writeEvidence(def *propDef, tier string, seed int, agg *shardResult, exhaus
 	}
 	other := map[string]int64{}
 	for k, v := range agg.counters {
-		if i := strings.IndexByte(k, ':'); i > 0 && strings.HasPrefix(k, "C") {
-			if k[:i] != def.ID {
-				continue
-			}
-			k = k[i+1:]
+		if i := strings.IndexByte(k, ':'); !(i > 0 && strings.HasPrefix(k, "C")) {
+			other[k] = v
 		}
-		other[k] = v
+	}
+	for k, v := range agg.counters {
+		if i := strings.IndexByte(k, ':'); i > 0 && strings.HasPrefix(k, "C") && k[:i] == def.ID {
+			other[k[i+1:]] = v
+		}
 	}
 	cov["counters"] = other
 	if len(agg.notes) > 0 {
